@@ -93,7 +93,10 @@ def optimize_prec_assignment(model: MPS,
                         continue
                     for j in range(i + 1, len(sorted_precisions)):
                         w_theta_alpha_array_tmp = [copy.deepcopy(w_theta_alpha_array)[i] for i in sorted_indexes]
-                        while w_theta_alpha_array_tmp[i] > 0:
+                        # move one channel at a time: the number of channels to move is computed
+                        # as an integer, accumulating 1/n in floating point may overshoot
+                        n_ch = layer.w_mps_quantizer.theta_alpha.shape[1]
+                        for _ in range(int(round(float(w_theta_alpha_array_tmp[i]) * n_ch))):
                             w_theta_alpha_array_tmp[i] -= (1. / layer.w_mps_quantizer.theta_alpha.shape[1])
                             w_theta_alpha_array_tmp[j] += (1. / layer.w_mps_quantizer.theta_alpha.shape[1])
                             cost_tmp = _compute_cost(model, layer, w_theta_alpha_array_tmp, cost_fn_map, lname, node)
@@ -118,7 +121,10 @@ def optimize_prec_assignment(model: MPS,
                     if sorted_precisions[i] == 0:
                         continue
                     for j in range(i + 1, len(sorted_precisions)):
-                        while w_theta_alpha_array_tmp[i] > 0:
+                        # move one channel at a time: the number of channels to move is computed
+                        # as an integer, accumulating 1/n in floating point may overshoot
+                        n_ch = layer.w_mps_quantizer.theta_alpha.shape[1]
+                        for _ in range(int(round(float(w_theta_alpha_array_tmp[i]) * n_ch))):
                             w_theta_alpha_array_tmp[i] -= (1. / layer.w_mps_quantizer.theta_alpha.shape[1])
                             w_theta_alpha_array_tmp[j] += (1. / layer.w_mps_quantizer.theta_alpha.shape[1])
                             cost_tmp = _compute_cost(model, layer, w_theta_alpha_array_tmp, cost_fn_map, lname, node)
